@@ -93,6 +93,22 @@ TrNext(e) ==
              /\ gens' = [gens EXCEPT ![Ev.g].s = r[1]]
   /\ UNCHANGED srcs
 
+(* The other stepping paths of a LINEAR generator (next_u64 of a 32-bit-word type = two engine steps,  *)
+(* next_u32 of a 64-bit-word type = one step, fill_bytes(8) = 8 / word bytes steps): only the STATE     *)
+(* they leave is specified here (C07: every path advances the one engine); the returned value is C05's. *)
+StepsOf(k, e) == IF OutLimbs(k) = 2 THEN (IF e = "next_u32" THEN 1 ELSE 2) ELSE 1
+TrStatePath(e) ==
+  /\ IsEvent(e) /\ NoPanic
+  /\ Ev.g \in DOMAIN gens
+  /\ LET G == gens[Ev.g] IN
+       /\ G.k \in LinearKinds /\ ~Native(G.k, e) /\ ~Has(Ev, "role")
+       /\ e = "fill_bytes" => Ev.n = 8
+       /\ ~Has(Ev, "n") \/ e = "fill_bytes"
+       /\ LET r == AlgTake(G.k, G.s, StepsOf(G.k, e)) IN
+            /\ ObsOk(G.k, r[1])
+            /\ gens' = [gens EXCEPT ![Ev.g].s = r[1]]
+  /\ UNCHANGED srcs
+
 (* SplitMix64::next_u32: the Mix4 finalizer of the same counter step *)
 TrSmNext32 ==
   /\ IsEvent("next_u32") /\ NoPanic
@@ -129,6 +145,7 @@ TrDrop == IsEvent("drop") /\ gens' = [g \in (DOMAIN gens) \ {Ev.g} |-> gens[g]] 
 Init == l = 1 /\ gens = <<>> /\ srcs = <<>>
 Next == \/ TrReset \/ TrFromSeed \/ TrSeedFromU64 \/ TrSrc \/ TrFromRng("from_rng") \/ TrFromRng("try_from_rng") \/ TrNext("next_u32") \/ TrNext("next_u64") \/ TrSmNext32
         \/ TrJump("jump") \/ TrJump("long_jump") \/ TrEq \/ TrDrop
+        \/ TrStatePath("next_u32") \/ TrStatePath("next_u64") \/ TrStatePath("fill_bytes")
 Spec == Init /\ [][Next]_vars
 
 Accepted ==
